@@ -18,11 +18,18 @@ per function in the spec):
   * `with E as m: body`            ->  `m = E; body`            (E listed in with_as)
   * `x, = f(...)`                  ->  `x = f(...)`             (f listed in unpack1)
   * `try: body finally: fin`       ->  `body; fin`              (try_finally_noraise)
-  * call argument `m[a:b]`         ->  two arguments a, b
+  * call argument `m[a:b]`         ->  three arguments m, a, b
 and, for the two loops, a rewrite of the local `remaining` into a state field so
 that the translated block can update it, `break` -> `return None`,
 `buf = buf[e:]` -> `return e`.
 Outputs the callee would receive are recorded in pseudo state fields `out.*`.
+
+Buffers: `memoryview(buf)` is the token 0 (the caller's buffer with its own shape),
+`memoryview(bytes(m))` the token 1 (a flat copy of its bytes); `len(m)` is
+`mv_len m dim0 nbytes`, i.e. the FIRST DIMENSION of the caller's buffer (a TypeError
+value for a 0-dimensional one) for token 0 and the byte count for token 1; the token
+of the view that is sliced is recorded in `out.base`.  So the generated definition
+shows which length the argument checks use on which path.
 """
 import ast
 import os
@@ -31,15 +38,21 @@ import pykernel
 from pykernel import FuncTr, Kernel, TranslateError, find_func, module_consts, fld, zlit
 
 STATE = ['self._handle', 'self._readable', 'self._writable', 'self.loop_remaining',
-         'out.lo', 'out.hi', 'out.max', 'out.hdr', 'out.w1', 'out.w2', 'out.r1', 'out.r2']
+         'out.base', 'out.lo', 'out.hi', 'out.max', 'out.hdr', 'out.w1', 'out.w2', 'out.r1', 'out.r2']
 
 PRELUDE = '''\
 (* ---- modelled callees (not translated) ---- *)
 Definition noop (s : st) (_ : list pv) : outcome st pv := Ok PNone s.
-(* callee receives the slice m[lo:hi] *)
+(* views: token 0 = memoryview(buf), the caller's buffer with its own shape;
+   token 1 = memoryview(bytes(m)), a flat copy of its bytes.  len() of a view *)
+Definition mv_orig : pv := PInt 0.
+Definition mv_flat : pv := PInt 1.
+Definition mv_len (m dim0 nbytes : pv) : pv :=
+  match m with PInt 0 => dim0 | PInt 1 => nbytes | _ => PErr TypeError end.
+(* callee receives the slice m[lo:hi] of the view `base` *)
 Definition emit_slice (s : st) (a : list pv) : outcome st pv :=
   match a with
-  | [lo; hi] => Ok PNone (set_out_hi (set_out_lo s lo) hi)
+  | [base; lo; hi] => Ok PNone (set_out_hi (set_out_lo (set_out_base s base) lo) hi)
   | _ => Exc TypeError s
   end.
 (* self._recv_bytes(maxsize) seen from its callers: records the argument, then
@@ -97,9 +110,9 @@ FUNCS = [
     dict(qual='_ConnectionBase._bad_message_length', coqname='bad_message_length', params=[],
          calls={'self.close': '(fun s (_ : list pv) => close s)'}),
     dict(qual='_ConnectionBase.send_bytes', coqname='send_bytes', params=['buf', 'offset', 'size'],
-         exprs={'memoryview(buf)': 'PNone', 'm.itemsize': 'itemsize',
-                'memoryview(bytes(m))': 'PNone', 'len(m)': 'nbytes'},
-         extra_params=['itemsize', 'nbytes'],
+         exprs={'memoryview(buf)': 'mv_orig', 'm.itemsize': 'itemsize',
+                'memoryview(bytes(m))': 'mv_flat', 'len(m)': 'mv_len v_m dim0 nbytes'},
+         extra_params=['itemsize', 'dim0', 'nbytes'],
          calls={'self._check_closed': '(fun s (_ : list pv) => check_closed s)',
                 'self._check_writable': '(fun s (_ : list pv) => check_writable s)',
                 'self._send_bytes': 'emit_slice'}),
@@ -111,7 +124,7 @@ FUNCS = [
                 'self._bad_message_length': '(fun s (_ : list pv) => bad_message_length s)'}),
     dict(qual='_ConnectionBase.recv_bytes_into', coqname='recv_bytes_into', params=['buf', 'offset'],
          with_as=['memoryview(buf)'],
-         exprs={'memoryview(buf)': 'PNone', 'm.itemsize': 'itemsize_', 'len(m)': 'nitems',
+         exprs={'memoryview(buf)': 'mv_orig', 'm.itemsize': 'itemsize_', 'len(m)': 'nitems',
                 'result.tell()': 'msgsize', 'result.getvalue()': 'PNone'},
          extra_params=['itemsize_', 'nitems', 'rb', 'msgsize'],
          calls={'self._check_closed': '(fun s (_ : list pv) => check_closed s)',
@@ -138,7 +151,7 @@ class FTr(FuncTr):
             if isinstance(a, ast.Subscript) and isinstance(a.slice, ast.Slice) \
                     and isinstance(a.value, ast.Name) and a.slice.step is None \
                     and a.slice.lower is not None and a.slice.upper is not None:
-                args += [a.slice.lower, a.slice.upper]
+                args += [a.value, a.slice.lower, a.slice.upper]
             else:
                 args.append(a)
         call2 = ast.copy_location(ast.Call(func=call.func, args=args, keywords=call.keywords), call)
